@@ -5,6 +5,7 @@
 //   kind=enc  body = one instruction text assemble -> walk the decoder over the bytes -> re-assemble each text
 // No expected values here; verdicts come from TLC.
 
+#include <ctype.h>
 #include <stdlib.h>
 #include <string.h>
 
@@ -170,6 +171,87 @@ static void codec_case(const Case &c, FILE *out)
       delete m3;
       fprintf(out, "\"len2\":%d,\"text2\":\"%s\",", d3.len, json_escape(d3.text).c_str());
     }
+  }
+  else if (kind == "dsum")
+  {
+    // many 32-bit words (one "hhhhllll" per line), each decoded in four byte arrangements followed by zeros, and again
+    // with everything behind the returned length inverted (locality).  The observations are projected on
+    // (length, text length, guard intact, local) and one record per distinct projection is written, with the
+    // number of decodes it stands for and the first bytes that gave it.
+    std::vector<std::string> lines = split(c.body, '\n');
+    struct Cls { int len; int tlen; bool guard; bool loc; long n; std::string w; std::string text; };
+    std::vector<Cls> classes;
+    long total = 0;
+    // expand=<len>:<tlen class>:<guard>:<loc> lists the decodes of one projection, one per distinct text with its
+    // digits blanked, so that a rejected projection can be reported instruction by instruction
+    std::string expand = opt_get(c.opts, "expand", "");
+    int xl = 0, xt = 0, xg = 0, xo = 0;
+    if (!expand.empty()) { sscanf(expand.c_str(), "%d:%d:%d:%d", &xl, &xt, &xg, &xo); }
+    std::vector<std::string> seen;
+    std::vector<Cls> listed;
+    Memory *m = new Memory();
+    m->endian = cpu_list[cpu].default_endian;
+    for (size_t i = 0; i < lines.size(); i++)
+    {
+      if (lines[i].size() < 8) { continue; }
+      uint32_t w = (uint32_t)strtoul(lines[i].c_str(), NULL, 16);
+      uint8_t b0 = w >> 24, b1 = (w >> 16) & 0xff, b2 = (w >> 8) & 0xff, b3 = w & 0xff;
+      uint8_t arr[4][4] = { { b0, b1, b2, b3 }, { b3, b2, b1, b0 }, { b1, b0, b3, b2 }, { b2, b3, b0, b1 } };
+      for (int a = 0; a < 4; a++)
+      {
+        if (a > 0 && memcmp(arr[a], arr[0], 4) == 0) { continue; }
+        uint8_t bytes[16];
+        memset(bytes, 0, sizeof(bytes));
+        memcpy(bytes, arr[a], 4);
+        for (int k = 0; k < 16; k++) { m->write8(addr + k, bytes[k]); }
+        Decoded d1 = decode(fn, cpu, m, addr);
+        bool loc = true;
+        if (d1.len >= 1 && d1.len < 16)
+        {
+          for (int k = d1.len; k < 16; k++) { m->write8(addr + k, bytes[k] ^ 0xff); }
+          Decoded d2 = decode(fn, cpu, m, addr);
+          loc = d2.len == d1.len && d2.text == d1.text;
+        }
+        total++;
+        int tl = d1.tlen >= 128 ? 128 : (d1.tlen == 0 ? 0 : 1);
+        size_t q;
+        for (q = 0; q < classes.size(); q++)
+        {
+          if (classes[q].len == d1.len && classes[q].tlen == tl && classes[q].guard == d1.guard && classes[q].loc == loc) { break; }
+        }
+        if (!expand.empty() && d1.len == xl && tl == xt && (int)d1.guard == xg && (int)loc == xo && listed.size() < 4000)
+        {
+          std::string blank = d1.text;
+          for (size_t z = 0; z < blank.size(); z++) { if (isxdigit((unsigned char)blank[z])) { blank[z] = '#'; } }
+          bool dup = false;
+          for (size_t z = 0; z < seen.size(); z++) { if (seen[z] == blank) { dup = true; break; } }
+          if (!dup)
+          {
+            seen.push_back(blank);
+            Cls n; n.len = d1.len; n.tlen = d1.tlen; n.guard = d1.guard; n.loc = loc; n.n = 1;
+            n.w = hex_bytes(bytes, 16); n.text = d1.text;
+            listed.push_back(n);
+          }
+        }
+        if (q == classes.size())
+        {
+          Cls n; n.len = d1.len; n.tlen = tl; n.guard = d1.guard; n.loc = loc; n.n = 0;
+          n.w = hex_bytes(bytes, 16); n.text = d1.text;
+          classes.push_back(n);
+        }
+        classes[q].n++;
+      }
+    }
+    delete m;
+    if (!expand.empty()) { classes = listed; }
+    fprintf(out, "\"total\":%ld,\"classes\":[", total);
+    for (size_t q = 0; q < classes.size(); q++)
+    {
+      fprintf(out, "%s{\"len\":%d,\"tlen\":%d,\"guard\":%s,\"loc\":%s,\"n\":%ld,\"w\":\"%s\",\"text\":\"%s\"}", q == 0 ? "" : ",",
+        classes[q].len, classes[q].tlen, classes[q].guard ? "true" : "false", classes[q].loc ? "true" : "false",
+        classes[q].n, classes[q].w.c_str(), json_escape(classes[q].text).c_str());
+    }
+    fprintf(out, "],");
   }
   else if (kind == "dec")
   {
